@@ -47,6 +47,13 @@ RegionsOK(f) ==
      /\ \A i \in 1..Len(g) : g[i] >= 0                       \* no overlap
      /\ Cardinality({i \in 1..Len(g) : g[i] > 0}) = 1        \* one rod bundle
 BCsOK(f) == \A a \in 1..Len(f.nbc) : f.nbc[a] = 1 /\ f.bcval[a] = 1
+\* every assignment line <<ring, first, last>> names positions that the ring
+\* has: ring 1 has one position, ring r has 6 (r - 1)
+PositionsOK(f) ==
+  \A i \in 1..Len(f.lines) :
+    LET r == f.lines[i][1] lo == f.lines[i][2] hi == f.lines[i][3] IN
+    /\ r >= 1 /\ lo >= 1 /\ lo <= hi
+    /\ hi <= (IF r = 1 THEN 1 ELSE 6 * (r - 1))
 NamesOK(f) == \A i \in 1..Len(f.names) : f.names[i] = 1
 PowerOK(f) == \A i \in 1..Len(f.pow) : f.pow[i] = 1
 Reasons(f) ==
@@ -58,6 +65,7 @@ Reasons(f) ==
   \cup (IF EqualOuter(f) THEN {} ELSE {"UnequalOuterDucts"})
   \cup (IF ~PositiveDims(f) \/ RegionsOK(f) THEN {} ELSE {"AxialRegionsOverlapOrInverted"})
   \cup (IF BCsOK(f) THEN {} ELSE {"BoundaryCondition"})
+  \cup (IF PositionsOK(f) THEN {} ELSE {"PositionOutsideRing"})
   \cup (IF NamesOK(f) THEN {} ELSE {"UnknownMaterialOrCorrelation"})
   \cup (IF PowerOK(f) THEN {} ELSE {"PowerProfile"})
 
